@@ -12,7 +12,7 @@
    numbers are C18's subject) for EVERY text, canonical or not.                  *)
 EXTENDS Literals
 
-CONSTANTS MaxLen, Variant        \* "ok" | "crlf-double" | "no-bom"
+CONSTANTS MaxLen, Variant        \* "ok" | "crlf-double" | "no-bom" | "chunk3"
 
 VARIABLES bom, t
 vars == <<bom, t>>
@@ -35,4 +35,11 @@ Undone == (~bom /\ Canonical(t)) =>
                           /\ Phase12(WithBOM(ToCRLF(SpliceAt(t, i)))) = t
                           /\ Phase12(ToCR(SpliceAt(t, i))) = t
 Refines == Norm(ChibiPhase12(Text, Variant)) = Norm(Phase12(Text))
+(* where a text starts is immaterial: a pad of any length in front (a comment in the replay, letters here) moves
+   every line end across every block edge and must not change what follows it                                  *)
+PadIndependent == (~bom /\ Canonical(t)) =>
+  \A k \in 0..3 : LET pad == [i \in 1..k |-> 97] IN
+     /\ Phase12(pad \o ToCRLF(t)) = pad \o t
+     /\ Norm(ChibiPhase12(pad \o ToCRLF(t), Variant)) = Norm(pad \o t)
+     /\ \A i \in 0..Len(t) : Norm(ChibiPhase12(pad \o ToCRLF(SpliceAt(t, i)), Variant)) = Norm(pad \o t)
 =============================================================================
